@@ -24,7 +24,8 @@ TOKENS = [
     b"h\0t\0t\0p\0:\0/\0/\0a\0.\0c\0o\0m\0", b"strlen", b"StrLen", b"GetProcAddress", b"Invoke-Expression", b"IEX", b"iex",
     b"\\\\host.com@SSL\\share\\x.exe", b"\\\\?\\UNC\\1.2.3.4\\c$\\a.dll", b"=", b"\x00", b"MZ", b"for /f %a in ('", b"')",
     b"VirtualAlloc", b"kernel32.dll", b"padding admin@kernel32.dll.example.com", b" user@sub.evil-site.net/usr/share/file.exe",
-    b"x = http://a.example.com/file.exe?u=admin@b.example.org", b"copy /srv/www/blog-site.example.com today", b"wscript.shell", b"HKEY_LOCAL_MACHINE", b"bitcoin", b"Mozilla/5.0",
+    b"x = http://a.example.com/file.exe?u=admin@b.example.org", b'xx cmd /c powershell -c "mail ops@sub.example.com now evil-site.net 10.1.2.3"',
+    b'pad "D:\\tools\\cmd.exe" /c ping evil-site.example.com -n 3', b"copy /srv/www/blog-site.example.com today", b"wscript.shell", b"HKEY_LOCAL_MACHINE", b"bitcoin", b"Mozilla/5.0",
 ]
 
 
